@@ -12,7 +12,9 @@ MONTHS = "Jan Feb Mar Apr May Jun Jul Aug Sep Oct Nov Dec".split()
 
 def make(cid: str, extra_headers: str = "", body: str | None = None, crlf: bool = True) -> bytes:
     nl = "\r\n" if crlf else "\n"
-    b = body if body is not None else f"body of cid={cid}; line two{nl}"
+    # (the default body's length depends on the content id, so that two generated messages rarely have the
+    # same size: a size served from a stale cache must show)
+    b = body if body is not None else f"body of cid={cid}; line two{nl}" + "p" * (sum(map(ord, cid)) * 7 % 61) + nl
     txt = (
         f"From: sender-{cid}@example.com{nl}"
         f"To: rcpt@example.com{nl}"
